@@ -34,6 +34,15 @@ Cfg ==
                      [op |-> "peekslice", lo |-> 1, hi |-> -1, open |-> FALSE, dir |-> "b2t"], P("err")},
          unary |-> {"seq", "opt", "rep", "lookp", "lookn", "push", "restore", "rule1"},
          sigma |-> {97, 98}]
+    [] Slice = "prims" ->       \* the matching primitives over an alphabet with case twins, bit-5 twins that are NOT letters
+                                \* ([ {, @ `), a two-byte letter with its upper case and a three-byte character whose
+                                \* first bytes differ from it in bit 5 only
+        [leaves |-> { [op |-> o, s |-> x] : o \in {"str", "ins"},
+                        x \in {<<97>>, <<65>>, <<91>>, <<123>>, <<64>>, <<233>>, <<201>>, <<97, 233>>, <<91, 65>>, <<>>} }
+                    \cup { [op |-> "range", lo |-> 65, hi |-> 91], [op |-> "range", lo |-> 233, hi |-> 14912], [op |-> "skip", n |-> 1], [op |-> "skip", n |-> 2],
+                           [op |-> "charby", set |-> "alpha"], P("eoi") },
+         unary |-> {"seq", "lookp", "lookn", "rep", "opt"},
+         sigma |-> {97, 65, 91, 123, 64, 96, 233, 201, 14912}]
     [] Slice = "until" ->       \* skip_until with 0..3 needles: empty needle, shared first bytes, multi-byte first character
         [leaves |-> { [op |-> "until", ss |-> ss] : ss \in UNION { [1..n -> {a, b, ab, none, e, <<233, 97>>, <<97, 97>>}] : n \in 0..3 } }
                     \cup {Str(a), P("eoi")},
